@@ -14,11 +14,11 @@ Rec == ndJsonDeserialize(IOEnv.TRACE)
 VARIABLES l, rst, conf, c33, newerrs
 tvars == <<vars, l, rst, conf, c33, newerrs>>
 IsEv(n) == l <= Len(Rec) /\ Rec[l].ev = n /\ l' = l + 1
-St0 == [workers |-> [w \in W |-> NoW], groups |-> [g \in G |-> [exists |-> FALSE, pl |-> [p \in Groups[g] |-> NoPl]]]]
+St0 == [workers |-> [w \in W |-> NoW], groups |-> [g \in G |-> [exists |-> FALSE, inc |-> 0, pl |-> [p \in Groups[g] |-> NoPl]]]]
 TInit == Init /\ l = 1 /\ rst = St0 /\ conf = TRUE /\ c33 = TRUE /\ newerrs = {}
 TReset == /\ IsEv("reset")
           /\ workers' = [w \in W |-> NoW]
-          /\ groups' = [g \in G |-> [exists |-> FALSE, pl |-> [p \in Groups[g] |-> NoPl]]]
+          /\ groups' = [g \in G |-> [exists |-> FALSE, inc |-> 0, pl |-> [p \in Groups[g] |-> NoPl]]]
           /\ plans' = {} /\ nplans' = 0 /\ last' = [k |-> "none"]
           /\ rst' = St0 /\ conf' = TRUE /\ c33' = TRUE /\ newerrs' = {}
 PlanById(id) == CHOOSE pl \in plans : pl.id = id
